@@ -26,10 +26,14 @@ func genC05(t *rapid.T) ModelCase {
 	o := c05Opts
 	o.Big = chancePct(t, 4, "big")
 	o.CacheSize = chancePct(t, 25, "cachesize")
+	// languages: what a LOAD or RELOAD stores is the result in the language selected when
+	// it runs, also for static symbols served from a db (resource.DbResource)
+	o.Langs = chancePct(t, 30, "langs")
 	a := GenApp(t, o)
 	modelFriendly(a)
 	mode := modelModes[uniformN(t, len(modelModes), "mode")]
 	c := ModelCase{App: a, Mode: mode}
+	c.UseDb = o.Langs && chancePct(t, 70, "usedb")
 	if mode.Kind == "persist" && chancePct(t, 35, "reuse") {
 		// a server that keeps one flushing persister: another session has been there before
 		c.Mode.Reuse = "flush"
@@ -41,9 +45,12 @@ func genC05(t *rapid.T) ModelCase {
 
 func checkC05(c ModelCase) (o Outcome) {
 	asp := diffAspects{position: true, calls: true, cache: true, output: true, cont: true}
-	v, f, discard := modelDiff(c.App, c.Inputs, c.Mode, asp, &diffHooks{prior: c.Prior})
+	v, f, discard := modelDiff(c.App, c.Inputs, c.Mode, asp, &diffHooks{prior: c.Prior, useDb: c.UseDb})
 	if c.Mode.Reuse != "" {
 		o.class("reused-flushing-persister")
+	}
+	if c.UseDb {
+		o.class("served-by-DbResource")
 	}
 	o.Viol, o.Discard = v, discard
 	// a result exactly at / one over its limit somewhere in the scripts?
@@ -140,7 +147,36 @@ func operatorFlag(real *app.Session, set bool) bool {
 	return false
 }
 
+// genC06FailedMove: a CROAK that fires only after a request whose matching INCMP could not
+// make its move (a flag set on the way keeps it armed for the next run): what such a failed
+// request leaves behind must not change how the signal is answered.
+func genC06FailedMove(t *rapid.T) ModelCase {
+	f := uint32(8 + uniformN(t, 3, "flag"))
+	sel := []string{"0", "1", "a"}[uniformN(t, 3, "sel")]
+	bad := []string{"x", "y", "q"}[uniformN(t, 3, "badtarget")] // not a node name (one character): the move fails
+	a := &app.App{Menus: map[string]string{}, Cfg: app.Config{FlagCount: 4}}
+	a.Syms = []app.Sym{{Name: "sa", Results: []app.Result{{Content: "alpha"}, {Content: "beta", FlagSet: []uint32{f}}, {Content: "gamma"}}}}
+	root := app.Node{Name: "root", Tpl: "top {{.sa}}", Code: []app.Instr{
+		{Op: refdec.LOAD, Sym: "sa", Num: 10}, {Op: refdec.CROAK, Num: f, Mode: true}, {Op: refdec.MAP, Sym: "sa"},
+		{Op: refdec.MOUT, Sym: "la", Sel: refdec.BS(sel)}, {Op: refdec.HALT},
+		{Op: refdec.RELOAD, Sym: "sa"}, {Op: refdec.INCMP, Sym: refdec.BS(bad), Sel: refdec.BS(sel)}, {Op: refdec.INCMP, Sym: "foo", Sel: "9"}, {Op: refdec.INCMP, Sym: ".", Sel: "*"}}}
+	foo := app.Node{Name: "foo", Tpl: "foo", Code: []app.Instr{{Op: refdec.HALT}, {Op: refdec.INCMP, Sym: "_", Sel: "*"}}}
+	a.Nodes = []app.Node{root, foo, catchNode}
+	var in []string
+	for i := uniformN(t, 2, "warmup"); i > 0; i-- {
+		in = append(in, "")
+	}
+	in = append(in, "", sel)
+	for i := 1 + uniformN(t, 3, "after"); i > 0; i-- {
+		in = append(in, []string{"", sel, "9", "x"}[uniformN(t, 4, "afterv")])
+	}
+	return ModelCase{App: a, Inputs: toBS(in), Mode: app.Mode{Kind: "persist", Backend: "mem"}}
+}
+
 func genC06(t *rapid.T) ModelCase {
+	if chancePct(t, 4, "failedmove") {
+		return genC06FailedMove(t)
+	}
 	a := GenApp(t, c06Opts)
 	if a.Cfg.FlagCount == 0 {
 		a.Cfg.FlagCount = 3
